@@ -66,7 +66,7 @@ def _g_getitem(rng, ds):
     if ds[0].dim() >= 2 and rng.random() < 0.6: k = rng.randint(1, ds[0].dim() - 1)     # partial index
     idx = [rng.randrange(n) for n in ds[0].shape[:k]]
     return [idx[0] if k == 1 and rng.random() < 0.5 else idx]
-def _g_dtype(rng, ds): return [rng.choice(["f32", "f64"])]
+def _g_dtype(rng, ds): return [rng.choice(["f32", "f64", "bool"])]
 
 def _nan2num_impl(t, nan, posinf, neginf):
     kw = {}
@@ -122,6 +122,21 @@ def _ref_iter(ds, args):
 
 import torch
 def _T(d): return d.permute(list(range(d.dim()))[::-1])
+
+def _impl_default_to(ts, a):
+    r = ts[0].default_to(a[0])
+    if not (r.default == a[0] or (r.default != r.default and a[0] != a[0])):
+        raise AssertionError("default_to postcondition: the default of the result is %r, not %r" % (r.default, a[0]))
+    return r
+
+def _impl_dim_to_dense(ts, a):
+    from fggs.indices import PhysicalAxis, unitAxis
+    r = ts[0].dim_to_dense(a[0])
+    e = r.vaxes[a[0]]
+    others = set(id(k) for i, x in enumerate(r.vaxes) if i != a[0] for k in x.fv({}))
+    if not (e == unitAxis or (isinstance(e, PhysicalAxis) and id(e) not in others)):
+        raise AssertionError("dim_to_dense postcondition: dimension %d is not a dense independent axis" % a[0])
+    return r
 
 F = "float"; B = "bool"; A = "any"
 OPS = [
@@ -203,8 +218,8 @@ OPS = [
     Op("clone", lambda ts, a: ts[0].clone(), lambda ds, a: ds[0].clone(), kind=A, nan_default=True),
     Op("detach", lambda ts, a: ts[0].detach(), lambda ds, a: ds[0].detach(), kind=A, nan_default=True),
     Op("freshen", lambda ts, a: ts[0].freshen(), lambda ds, a: ds[0], kind=A, nan_default=True),
-    Op("default_to", lambda ts, a: ts[0].default_to(a[0]), lambda ds, a: ds[0], gen=_g_default, nan_default=True),
-    Op("dim_to_dense", lambda ts, a: ts[0].dim_to_dense(a[0]), lambda ds, a: ds[0], kind=A, gen=_g_dim, nan_default=True, weight=2),
+    Op("default_to", _impl_default_to, lambda ds, a: ds[0], gen=_g_default, nan_default=True),
+    Op("dim_to_dense", _impl_dim_to_dense, lambda ds, a: ds[0], kind=A, gen=_g_dim, nan_default=True, weight=2),
     Op("reshape", lambda ts, a: ts[0].reshape(a[0]) , lambda ds, a: ds[0].reshape(a[0]), kind=A, gen=_g_reshape, may_raise=(RuntimeError,), nan_default=True, weight=2),
     Op("reshape_star", lambda ts, a: ts[0].reshape(*a[0]), lambda ds, a: ds[0].reshape(*a[0]), kind=A, gen=_g_reshape, may_raise=(RuntimeError,)),
     Op("view", lambda ts, a: ts[0].view(a[0]), lambda ds, a: ds[0].reshape(a[0]), kind=A, gen=_g_reshape, may_raise=(RuntimeError,)),
@@ -341,7 +356,7 @@ def run_step(op, tensors, denses, args, mon):
         nwarn = sum(1 for w in wl if "index type mismatch" in str(w.message))
     except Exception as ex:
         mon.active = False
-        if rexc is not None: return Outcome("both_raise"), None, None
+        if rexc is not None: return Outcome("both_raise", exc=ex), None, None
         if isinstance(ex, op.may_raise) and not (len(args) > 1 and args[1] is True):
             return Outcome("allowed_raise", exc=ex), None, None
         return Outcome("raise", detail=repr(ex), exc=ex), None, None
@@ -441,19 +456,90 @@ def wire_case(case, out):
         return None
     return (OPCODE[name], na, [xv(x) for x in sc], [wire_tensor(s) for s in case["operands"]], res)
 
+# ---------------------------------------------------------------------------- model check 2 (Model/PTensorOpsCheck.v)
+OPCODE2 = {"where": 50, "stack": 51, "any": 52, "dim_to_dense": 53, "project": 54, "reshape": 55, "reshape_star": 55,
+           "view": 56, "copy_": 57, "to": 58}
+GROUP2 = {50: "select", 51: "select", 52: "reduce", 53: "reduce", 54: "reduce", 55: "reshape", 56: "reshape", 57: "storage", 58: "storage"}
+
+def _small(specs):
+    return not any(math.prod(n for _, n in s["paxes"]) > 64 or math.prod(U.a_numel(e) for e in s["vaxes"]) > 100 for s in specs)
+
+def wire_result(out, res=None):
+    """(tag, shape, values) of the implementation's outcome, or None"""
+    if out.status in ("ok", "mismatch") and res is not None:
+        try:
+            d = res.to_dense() if hasattr(res, "to_dense") else res
+        except Exception:
+            return None
+        if d.dtype not in (torch.float64, torch.float32, torch.bool): return None
+        return (0, list(d.shape), [xv(v) for v in d.flatten().tolist()])
+    if out.status in ("raise", "allowed_raise", "both_raise") and out.exc is not None:
+        if isinstance(out.exc, ZeroDivisionError): return (1, [], [])
+        if isinstance(out.exc, RuntimeError): return (2, [], [])
+        return (3, [], [])
+    return None
+
+def wire_case2(case, out):
+    """value for pt_check2 (operations of Model/PTensorOps.v), or None"""
+    name = case["op"]
+    if case.get("chain") or name not in OPCODE2 or name in SPECIALS: return None
+    if any(s["dtype"] not in ("f64", "bool") for s in case["operands"]) or not _small(case["operands"]): return None
+    args = case["args"]; nd = len(case["operands"][0]["vaxes"])
+    na = []
+    if name == "any": na = [args[0] % max(nd, 1), 1 if args[1] else 0]
+    elif name == "dim_to_dense": na = [args[0]]
+    elif name in ("reshape", "reshape_star", "view"):
+        tgt = list(args[0])
+        if sum(1 for x in tgt if x == -1) > 1 or any(x < -1 for x in tgt): return None
+        inferred = tgt.index(-1) + 1 if -1 in tgt else 0
+        na = [1 if args[1] else 0, inferred] + [0 if x == -1 else x for x in tgt]
+    elif name == "to": na = [1 if args[0] == "bool" else 0]
+    res = wire_result(out, getattr(out, "first_res", None))
+    if res is None: return None
+    if name != "to" and res[0] == 0 and getattr(out, "first_res", None) is not None:
+        r = out.first_res
+        if getattr(r, "dtype", None) == torch.float32: return None
+    return (OPCODE2[name], na, [], [wire_tensor(s) for s in case["operands"]], res)
+
 # ---------------------------------------------------------------------------- special operations
 def special_copy_(rng, mon):
-    dst, _ = U.gen_tensor(rng, kind=rng.choice(["float", "bool"]))
-    same_size = rng.random() < 0.5
-    src, _ = U.gen_tensor(rng, kind=("bool" if dst["dtype"] == "bool" else "float") if same_size else rng.choice(["float", "bool"]),
-                          types=dst["types"] if same_size else None, dtype=dst["dtype"] if (same_size and dst["dtype"] != "bool") else None,
-                          pool=U.Pool(40))
+    same_size = rng.random() < 0.6
+    dst, _ = U.gen_tensor(rng, kind=rng.choice(["float", "bool"]), **(dict(p_phys=0.8) if same_size else {}))
+    same_kind = rng.random() < 0.7          # otherwise: equal element counts but another dtype (no storage re-use)
+    dkind = "bool" if dst["dtype"] == "bool" else "float"
+    skind = (dkind if same_kind else ("float" if dkind == "bool" else "bool")) if same_size else rng.choice(["float", "bool"])
+    src, _ = U.gen_tensor(rng, kind=skind, types=dst["types"] if same_size else None,
+                          dtype=dst["dtype"] if (same_size and same_kind and dst["dtype"] != "bool") else None,
+                          pool=U.Pool(40), **(dict(p_phys=0.8) if same_size else {}))
+    if same_size and rng.random() < 0.5 and len(dst["paxes"]) >= 2:
+        # the same pattern (renamed apart): equal physical sizes, so that the re-use rule is decided by dtype and layout
+        def sh(e):
+            if e[0] == "Phys": return ("Phys", (e[1][0] + 40, e[1][1]))
+            if e[0] == "Prod": return ("Prod", [sh(x) for x in e[1]])
+            return ("Sum", (e[1][0], sh(e[1][1]), e[1][2]))
+        n = math.prod(k for _, k in dst["paxes"])
+        src = dict(types=dst["types"], vaxes=[sh(e) for e in dst["vaxes"]], paxes=[(k + 40, m) for k, m in dst["paxes"]],
+                   default=src["default"], dtype=src["dtype"], values=U.gen_values(n, rng, "bool" if src["dtype"] == "bool" else "float"))
     case = dict(op="copy_", args=[], operands=[dst, src])
     w = U.World()
     d = U.build_tensor(dst, w); s = U.build_tensor(src, w)
-    alias = None
-    if rng.random() < 0.4:      # destination physical is a permuted (non-contiguous) view
-        pass
+    # the storage of the destination: contiguous, a permuted view of a contiguous tensor (contiguous after sorting
+    # the strides), an expanded (stride-0) view, or a strided slice
+    c = rng.random(); p = d.physical; layout = "contiguous"
+    if p.dim() >= 2 and c < 0.3:
+        perm = list(range(p.dim())); rng.shuffle(perm)
+        inv = [perm.index(i) for i in range(p.dim())]
+        d.physical = p.permute(perm).contiguous().permute(inv); layout = "permuted"
+    elif p.dim() >= 1 and c < 0.45:
+        j = rng.randrange(p.dim())
+        d.physical = p.narrow(j, 0, 1).expand(p.size()); layout = "expanded"
+    elif p.dim() >= 1 and c < 0.6:
+        j = rng.randrange(p.dim())
+        big = torch.cat([p, p], dim=j)
+        d.physical = big[(slice(None),) * j + (slice(None, None, 2),)]; layout = "strided"
+    case["args"] = [layout]
+    sizes = list(d.physical.size()); strides = list(d.physical.stride()); ptr = d.physical.data_ptr()
+    same_dtype = d.physical.dtype == s.physical.dtype
     sd = U.dense_ref(src)
     mon.active = True
     try:
@@ -462,12 +548,20 @@ def special_copy_(rng, mon):
         mon.active = False
         return case, Outcome("raise", detail=repr(ex), exc=ex)
     mon.active = False
-    if r is not None: return case, Outcome("mismatch", detail="copy_ returned a value")
-    if not U.same(d.to_dense(), sd): return case, Outcome("mismatch", detail="destination differs from source after copy_")
-    if not U.same(s.to_dense(), sd): return case, Outcome("mismatch", detail="source changed by copy_")
-    if d.default != s.default and not (d.default != d.default and s.default != s.default):
-        return case, Outcome("mismatch", detail="default not copied")
-    return case, Outcome("ok")
+    out = Outcome("ok")
+    if r is not None: out = Outcome("mismatch", detail="copy_ returned a value")
+    elif not U.same(d.to_dense(), sd): out = Outcome("mismatch", detail="destination differs from source after copy_")
+    elif not U.same(s.to_dense(), sd): out = Outcome("mismatch", detail="source changed by copy_")
+    elif d.default != s.default and not (d.default != d.default and s.default != s.default):
+        out = Outcome("mismatch", detail="default not copied")
+    reused = d.physical.data_ptr() == ptr
+    if src["dtype"] in ("f64", "bool") and _small([src]) and math.prod(sizes) > 0 and s.physical.numel() > 0:
+        res = wire_result(out, d)
+        dummy = dict(paxes=[], vaxes=[], default=0.0, values=[0.0])
+        if res is not None:
+            out.wire2 = (57, [1 if same_dtype else 0, 1 if reused else 0, len(sizes)] + sizes + strides, [],
+                         [wire_tensor(dummy), wire_tensor(src)], res)
+    return case, out
 
 def special_stack(rng, mon):
     from fggs.indices import stack
@@ -487,16 +581,20 @@ def special_stack(rng, mon):
     ts = [U.build_tensor(s, w) for s in specs]; ds = [U.dense_ref(s) for s in specs]
     ref = torch.stack(ds, dim)
     mon.active = True
+    r = None
     try:
         with warnings.catch_warnings():
             warnings.simplefilter("ignore")
             r = stack(ts, dim)
             ok = tuple(r.size()) == tuple(ref.shape) and U.same(r.to_dense(), ref)
+        out = Outcome("ok") if ok else Outcome("mismatch", detail="values")
     except Exception as ex:
-        mon.active = False
-        return case, Outcome("raise", detail=repr(ex), exc=ex)
+        out = Outcome("raise", detail=repr(ex), exc=ex)
     mon.active = False
-    return case, (Outcome("ok") if ok else Outcome("mismatch", detail="values"))
+    if all(s["dtype"] in ("f64", "bool") for s in specs) and _small(specs) and math.prod(ref.shape) <= 200:
+        res = wire_result(out, r)
+        if res is not None: out.wire2 = (51, [dim], [], [wire_tensor(s) for s in specs], res)
+    return case, out
 
 def special_project(rng, mon):
     nested = rng.random() < 0.4
@@ -524,15 +622,20 @@ def special_project(rng, mon):
     for env in U.all_envs(pax2):
         ref[tuple(env[k] for k, _ in pax2)] = d[tuple(U.a_eval(e, env) for e in vax2)]
     mon.active = True
+    r = None
     try:
         with warnings.catch_warnings():
             warnings.simplefilter("ignore")
             r = tt.project(tuple(w.phys(k, n) for k, n in pax2), tuple(w.build(e) for e in vax2))
+        out = Outcome("ok") if U.same(r, ref) else Outcome("mismatch", detail="values")
     except Exception as ex:
-        mon.active = False
-        return case, Outcome("raise", detail=repr(ex), exc=ex)
+        out = Outcome("raise", detail=repr(ex), exc=ex)
     mon.active = False
-    return case, (Outcome("ok") if U.same(r, ref) else Outcome("mismatch", detail="values"))
+    if t["dtype"] in ("f64", "bool") and _small([t]) and math.prod(n for _, n in pax2) <= 100:
+        res = wire_result(out, r)
+        if res is not None:
+            out.wire2 = (54, [], [], [wire_tensor(t), (list(pax2), list(vax2), xv(0.0), [])], res)
+    return case, out
 
 SPECIALS = {"copy_": special_copy_, "stack": special_stack, "project": special_project}
 
@@ -549,6 +652,18 @@ def gen_case(op, rng, types, pat=None):
         if args is None:
             if pat is not None: return None
             continue
+        if op.name == "any" and rng.random() < 0.6:
+            sp = specs[0]
+            sp["values"] = [rng.random() < 0.08 for _ in sp["values"]]
+            if rng.random() < 0.6: sp["default"] = True
+        if op.name == "dim_to_dense" and pat is None and rng.random() < 0.4 and len(specs[0]["vaxes"]) >= 2:
+            # the dimension to densify is a physical axis shared with another dimension (a diagonal)
+            sp = specs[0]; d = args[0]
+            cand = [i for i, e in enumerate(sp["vaxes"]) if i != d and e[0] == "Phys" and U.a_numel(e) == U.a_numel(sp["vaxes"][d])]
+            if cand:
+                sp["vaxes"] = list(sp["vaxes"]); sp["vaxes"][d] = sp["vaxes"][cand[0]]
+                sp["paxes"] = U.fv_list(sp["vaxes"]); n = math.prod(k for _, k in sp["paxes"])
+                sp["values"] = U.gen_values(n, rng, "bool" if sp["dtype"] == "bool" else "float")
         return dict(op=op.name, args=args, operands=specs)
     return None
 
@@ -617,7 +732,7 @@ def run_ops(tier, seed, violations, cov, mon):
             if U.tsize(t1) * U.tsize(t2) > 24: continue
             for vax, _ in U.enum_patterns([t1, t2]): pool2.append(([t1, t2], vax))
     patterns = pool1 + pool2
-    hist = {}; status_hist = {}; n_eval = 0; distinct = set(); samples = []; warn_cases = 0; ptvals = []
+    hist = {}; status_hist = {}; n_eval = 0; distinct = set(); samples = []; warn_cases = 0; ptvals = []; ptvals2 = []
     def judge(case, out):
         nonlocal n_eval, warn_cases
         n_eval += 1
@@ -631,6 +746,11 @@ def run_ops(tier, seed, violations, cov, mon):
         except Exception:
             wv = None
         if wv is not None: ptvals.append((wv, describe(case)))
+        try:
+            wv2 = getattr(out, "wire2", None) or wire_case2(case, out)
+        except Exception:
+            wv2 = None
+        if wv2 is not None: ptvals2.append((wv2, describe(case)))
         if out.status in ("ok", "both_raise", "allowed_raise"): return
         if out.status == "ref_raise_only":
             # torch rejects the dense operation but the patterned one succeeded: not a counterexample to the property
@@ -657,7 +777,7 @@ def run_ops(tier, seed, violations, cov, mon):
             judge(case, exec_case(case, mon))
             if len(samples) < 4 and nontrivial(case) and (not samples or rng.random() < 0.02): samples.append(describe(case))
     for name, f in SPECIALS.items():
-        for _ in range((120 if name == "project" else 60) if quick else 800):
+        for _ in range({"project": 120, "copy_": 150}.get(name, 60) if quick else 800):
             try:
                 case, out = f(rng, mon)
             except Exception as ex:
@@ -677,6 +797,7 @@ def run_ops(tier, seed, violations, cov, mon):
                                exhaustive_pattern_pool=len(patterns), cases_with_type_mismatch_warning=warn_cases)
     cov["samples"] = samples[:3]
     cov["_ptvals"] = ptvals
+    cov["_ptvals2"] = ptvals2
     return n_eval, len(distinct)
 
 def replay_case(c):
